@@ -84,13 +84,20 @@ class NeuronFix(Fixture):
 
     # (module mode, `adapt` argument): the first four keep adaptations frozen (no coupling declared);
     # "coupled-same" updates them (declared coupling) with identical samples and the default mean reduction
-    VARIANTS = [("eval", False), ("eval", None), ("train", False), ("coupled-same", True), ("coupled-same", None)]
+    # "coupled-sum": adaptations updated with identical samples and batch_reduction = torch.sum - the shared adaptation
+    # becomes the SUM of the per-sample adaptations (B times the single one); after every step the single copies are
+    # given the shared adaptation so that all continue from the same state
+    VARIANTS = [("eval", False), ("eval", None), ("train", False), ("coupled-same", True), ("coupled-same", None),
+                ("coupled-sum", True)]
 
     def __init__(self, rng, B, mode, cls, variant=None, resize=False):
         super().__init__(rng, B, mode)
         self.cls = cls
         self.variant = variant if variant is not None else ("eval", False)
-        self.coupled = self.variant[0] == "coupled-same"
+        self.coupled = self.variant[0] in ("coupled-same", "coupled-sum")
+        self.summed = self.variant[0] == "coupled-sum"
+        if self.summed:
+            self.B = B = 2            # the shared adaptation doubles per step: keep the growth small
         self.resize_at = rng.randint(3, 6) if resize else None
         self.resize_to = None
         if resize == "grow":
@@ -134,7 +141,8 @@ class NeuronFix(Fixture):
                          module_mode=self.variant[0], adapt=str(self.variant[1]), resize_to=self.resize_to)
 
     def make(self, batch):
-        n = build_neuron(self.cls, self.shape, batch, self.dt, self.R * self.tick, self.params)
+        n = build_neuron(self.cls, self.shape, batch, self.dt, self.R * self.tick, self.params,
+                         batch_reduction=(torch.sum if self.summed else None))
         if self.variant[0] == "eval":
             n.eval()
         else:
@@ -173,8 +181,18 @@ class NeuronFix(Fixture):
         real = [obj.voltage]
         if self.cls in ADAPTIVE:   # shared over the batch: every sample sees the same adaptation
             ad = obj.threshold_adaptation if self.cls in ADAPTIVE_THRESH else obj.current_adaptation
+            if self.summed and out.shape[0] == 1:
+                ad = ad * self.B          # B identical samples: the documented sum is B times one sample's adaptation
             real.append(ad.unsqueeze(0).expand((out.shape[0],) + tuple(ad.shape)))
         return [([out, torch.round(r * 1024)], real)]
+
+    def after_step(self, batched, singles):
+        if self.summed:
+            for sgl in singles:
+                if self.cls in ADAPTIVE_THRESH:
+                    sgl.threshold_adaptation = batched.threshold_adaptation.detach().clone()
+                else:
+                    sgl.current_adaptation = batched.current_adaptation.detach().clone()
 
     def resize(self, obj, batch):
         """through the public `batchsz` setter (documented to clear the state)"""
@@ -561,6 +579,8 @@ def run_pair(fix: Fixture, steps: int):
             sb = fix.stages(batched, ob)
         except Exception as e:   # noqa: BLE001  (the singles ran this step without raising)
             raise BatchedRaised(t, e)
+        if hasattr(fix, "after_step"):
+            fix.after_step(batched, singles)
         rec = {"b": sb, "s": per, "B": B, "resize": resized}
         if isinstance(ob, dict) and "acc" in ob:
             rec["acc_b"] = ob["acc"]
